@@ -1,2 +1,92 @@
-(* placeholder until the proofs land *)
-From Tables Require Import ModelFib.
+(* Property C05 — FIB lookup is longest-prefix match under every update history, in both FIB implementations.
+   Only theorem statements closed by `exact`, each followed by Print Assumptions.
+   Models: ModelFib.v (tree_* = fw/table/fib-strategy-tree.go, ht_* = fw/table/fib-strategy-hashtable.go with virtual
+   depth m, spec_* = a flat map name -> entry).  run_X ops = the table after the operation history ops. *)
+From Tables Require Import ModelAssoc ModelFib Assoc Lpm FibTree FibHash.
+From Coq Require Import Permutation.
+Local Open Scope nat_scope.
+
+(* What the specification's lookup means: the value selected at the LONGEST prefix of n that selects anything
+   (sel = "has next hops" for FindNextHops, "has a strategy" for FindStrategy). *)
+Theorem lpm_is_longest_prefix_match : forall (A : Type) (sel : name -> option A) (n : name) (a : A),
+  lpm sel n (length n) = Some a <->
+  exists j, j <= length n /\ sel (firstn j n) = Some a /\ forall i, j < i <= length n -> sel (firstn i n) = None.
+Proof. exact (fun A sel n a => lpm_Some sel n (length n) a). Qed.
+Print Assumptions lpm_is_longest_prefix_match.
+
+(* name tree: after ANY history, for ANY lookup name, next hops (same list, same order) and strategy are those of
+   longest-prefix match over the flat map *)
+Theorem fib_tree_refines : forall (ops : list fibop) (n : name),
+  tree_find_nh (run_tree ops) n = spec_find_nh (run_spec ops) n /\
+  tree_find_strat (run_tree ops) n = spec_find_strat (run_spec ops) n.
+Proof. exact (fun ops n => tree_refines_inv _ _ n (tree_run_inv ops)). Qed.
+Print Assumptions fib_tree_refines.
+
+(* hash table with virtual nodes: for EVERY m >= 1, any history, any lookup name; next hops agree as finite maps
+   (the hash table's RemoveNextHop moves the last element into the hole) *)
+Theorem fib_ht_refines : forall (m : nat) (ops : list fibop) (n : name), 1 <= m ->
+  Permutation (ht_find_nh m (run_ht m ops) n) (spec_find_nh (run_spec ops) n) /\
+  ht_find_strat m (run_ht m ops) n = spec_find_strat (run_spec ops) n.
+Proof. exact ht_refines. Qed.
+Print Assumptions fib_ht_refines.
+
+(* the two implementations are observationally identical *)
+Theorem fib_tree_ht_equiv : forall (m : nat) (ops : list fibop) (n : name), 1 <= m ->
+  Permutation (tree_find_nh (run_tree ops) n) (ht_find_nh m (run_ht m ops) n) /\
+  tree_find_strat (run_tree ops) n = ht_find_strat m (run_ht m ops) n.
+Proof.
+  exact (fun m ops n Hm =>
+    match fib_tree_refines ops n, ht_refines m ops n Hm with
+    | conj t1 t2, conj h1 h2 =>
+        conj (eq_ind_r (fun l => Permutation l _) (Permutation_sym h1) t1) (eq_trans t2 (eq_sym h2))
+    end).
+Qed.
+Print Assumptions fib_tree_ht_equiv.
+
+(* listings contain exactly the prefixes that currently hold next hops / a strategy, with exactly those values *)
+Theorem fib_listing_exact_tree : forall (ops : list fibop),
+  let t := nodes (run_tree ops) in let s := run_spec ops in
+  (forall p l, In (p, l) (list_fib t) <-> (l = nhs (sget s p) /\ l <> [])) /\
+  NoDup (map fst (list_fib t)) /\
+  (forall p x, In (p, x) (list_strat t) <-> strat (sget s p) = Some x).
+Proof. exact (fun ops => tree_listing_inv _ _ (tree_run_inv ops)). Qed.
+Print Assumptions fib_listing_exact_tree.
+
+Theorem fib_listing_exact_ht : forall (m : nat) (ops : list fibop), 1 <= m ->
+  let h := run_ht m ops in let s := run_spec ops in
+  (forall p l, In (p, l) (list_fib (real h)) -> Permutation l (nhs (sget s p)) /\ l <> []) /\
+  (forall p, nhs (sget s p) <> [] -> exists l, In (p, l) (list_fib (real h))) /\
+  NoDup (map fst (list_fib (real h))) /\
+  (forall p x, In (p, x) (list_strat (real h)) <-> strat (sget s p) = Some x).
+Proof. exact ht_listing. Qed.
+Print Assumptions fib_listing_exact_ht.
+
+(* the root always has a strategy: it can be replaced but (under the management guard, which refuses it — C17) not
+   unset; at the table API the exclusion of an explicit `UnS []` is the visible hypothesis no_unset_root *)
+Theorem root_strategy_total : forall (ops : list fibop) (n : name), no_unset_root ops ->
+  tree_find_strat (run_tree ops) n <> None /\
+  forall m, 1 <= m -> ht_find_strat m (run_ht m ops) n <> None.
+Proof.
+  exact (fun ops n H =>
+    conj (eq_ind_r (fun x => x <> None) (spec_root_strategy_total ops n H) (proj2 (fib_tree_refines ops n)))
+         (fun m Hm => eq_ind_r (fun x => x <> None) (spec_root_strategy_total ops n H) (proj2 (ht_refines m ops n Hm)))).
+Qed.
+Print Assumptions root_strategy_total.
+
+(* the hypothesis is needed: unsetting the root leaves names without any strategy *)
+Theorem root_unset_refuted : exists ops n, tree_find_strat (run_tree ops) n = None.
+Proof. exact (ex_intro _ [UnS []] (ex_intro _ [1%N] eq_refl)). Qed.
+Print Assumptions root_unset_refuted.
+
+(* non-vacuity: a history over nested prefixes straddling m = 2 (remove the middle of a chain, strategy on an inner
+   node, re-add), with non-trivial answers that agree in all three *)
+Example c05_example :
+  let ops := [Ins [1;2;3] 7 10; Ins [1] 8 5; SetS [1;2] 4; Ins [1;2;3;4;5] 9 1; Rem [1;2;3] 7; Ins [1;2;3] 6 2; UnS [1;2]; Clr [1;2;3;4;5]]%N in
+  no_unset_root ops /\
+  tree_find_nh (run_tree ops) [1;2;3;4;5;6]%N = [(6, 2)]%N /\
+  ht_find_nh 2 (run_ht 2 ops) [1;2;3;4;5;6]%N = [(6, 2)]%N /\
+  spec_find_nh (run_spec ops) [1;2;9]%N = [(8, 5)]%N /\
+  tree_find_strat (run_tree ops) [1;2;3]%N = Some 0%N.
+Proof.
+  split; [repeat constructor; discriminate | vm_compute; repeat split; reflexivity].
+Qed.
